@@ -167,6 +167,8 @@ func init() {
 			if tier == "thorough" {
 				items = append(allItems("C01", c01Oracle, nil, "empty", "incr", "incr-abort", "incr-abortdrop", "cancel", "shutdown", "incr-write", "incr-getters", "two", "two-steps", "incr-refresh"), items...)
 			}
+			// the programs of the other concurrent families, judged by "everything returned" alone (cross.go)
+			items = append(items, crossItems("C01", tier, judgeHang(false))...)
 			return items
 		},
 	})
